@@ -5,7 +5,8 @@ import json
 import random
 
 from sfv.framework import Ctx, Property
-from sfv.rt import recov
+from sfv.rt import multifs, recov
+from sfv.translate import dirregguard
 from sfv.rt.par import pmap
 
 
@@ -21,6 +22,51 @@ def gen_cases(rng: random.Random, quick: bool) -> list[dict]:
     cases.append({"name": f"scatter{m}-reschedule-after-failure", "shape": {"kind": "scatter", "m": m}, "max_retries": 4,
                   "plan": [{"step": "/b", "tag": f"0.{el}", "phase": "execute", "kind": "failstop", "count": 1}]})
     return cases
+
+
+def multifs_cases(rng: random.Random, quick: bool) -> list[dict]:
+    """jobs bound with Target(locations=k) on a fake remote connector whose locations have private file systems"""
+    cases = [{"name": "multifs-3jobs-2of3-locations", "jobs": 3, "locations": 2, "nlocs": 3},
+             {"name": "multifs-2jobs-3of3-locations-fixed-tmp", "jobs": 2, "locations": 3, "nlocs": 3, "fixed": {"tmp": True}},
+             {"name": "multifs-1job-1of3-locations", "jobs": 1, "locations": 1, "nlocs": 3}]
+    if not quick:
+        for _ in range(6):
+            n = rng.choice([2, 3, 4, 5])
+            cases.append({"name": f"multifs-random-{len(cases)}", "jobs": rng.choice([1, 2, 4, 6]), "locations": rng.randint(1, n), "nlocs": n,
+                          "deployments": rng.choice([1, 1, 2]),
+                          "fixed": {k: True for k in ("input", "output", "tmp") if rng.random() < 0.25}})
+    return cases
+
+
+def judge_multifs(case: dict, r: dict) -> list[tuple[str, str]]:
+    name = case["name"]
+    if r["outcome"] != "ok":
+        return [(f"schedule:{r['outcome']}", f"{name}: {r.get('msg', '')[:300]}")]
+    fails = []
+    if len(r["jobs"]) != case["jobs"]:
+        fails.append(("not-every-job-scheduled", f"{name}: {len(r['jobs'])} of {case['jobs']} jobs scheduled"))
+    seen: dict = {}
+    for e in r["jobs"]:
+        if len(e["locations"]) != case["locations"]:
+            fails.append(("allocation-size-differs-from-target", f"{name}: {e['job']} allocated on {len(e['locations'])} locations, target says {case['locations']}"))
+        if len({(l["deployment"], l["name"]) for l in e["locations"]}) != len(e["locations"]):
+            fails.append(("allocation-repeats-a-location", f"{name}: {e['job']}: {[(l['deployment'], l['name']) for l in e['locations']]}"))
+        for loc in e["locations"]:
+            for d, (registered, exists) in loc["cells"].items():
+                if not exists:
+                    fails.append(("job-directory-does-not-exist-on-allocated-location",
+                                  f"{name}: {e['job']}: {d} does not exist in the file system of {loc['deployment']}/{loc['name']}"))
+                if not registered:
+                    fails.append(("job-directory-not-registered-on-allocated-location",
+                                  f"{name}: {e['job']}: {d} exists on {loc['deployment']}/{loc['name']} but the data manager has no data location "
+                                  f"for it there (allocation: {[l['name'] for l in e['locations']]})"))
+        for pos, d in enumerate(e["dirs"]):
+            if case.get("fixed", {}).get(("input", "output", "tmp")[pos]):
+                continue
+            if d in seen:
+                fails.append(("directory-shared-between-jobs", f"{name}: {d} given to {e['job']} and {seen[d]}"))
+            seen[d] = e["job"]
+    return fails
 
 
 def judge(case: dict, r: dict) -> list[tuple[str, str]]:
@@ -61,14 +107,18 @@ class C15(Property):
     lean_targets = ["SFV.Props.C15", "SFV.Model.Proto"]
     props_files = ["SFV/Props/C15.lean"]
     drivers = ["Drivers/C15.lean"]
-    translators = []
+    translators = [dirregguard.generate]
     rule = ("real workflows with scattered steps (2..12 concurrent jobs of one step) and a pipeline on the local connector, with and without a "
             "tmp directory fixed by the step, and with a job re-scheduled after a fail-stop failure; observed for every scheduling: the three "
             "directories in the Job, their existence and their registration in the data manager when the job's command starts, pairwise "
             "distinctness across all schedulings; the number of distinct directories is compared with the Lean bookkeeping model on the same "
-            "sequence of schedulings.")
+            "sequence of schedulings. Multi-location: the real DeployStep + ScheduleStep with Target(locations=k) on a fake REMOTE connector whose "
+            "2..5 locations have private file systems (harness/sfv/rt/multifs.py): for every job and EVERY allocated location each directory must "
+            "exist in that location's file system and be registered for (deployment, location name); registration counts compared with the Lean "
+            "registration loop run with the generated guard. T: the guard's query must name deployment and location.")
     trusted_base = ["uuid4 freshness (random_name) = the model's increasing name supply", "real mkdir / resolve / data manager registry are runtime (observed)",
-                    "only the local connector is exercised (no shell-based remote fake in this round)"]
+                    "fake remote connector harness/sfv/rt/multifs.py (private file system per location by rewriting a virtual path prefix; commands run by "
+                    "a local sh); translator harness/sfv/translate/dirregguard.py (arguments of the guard of the registration loop)"]
     assumptions = ["random_name() never repeats"]
     technique = "Lean 4 bookkeeping model (exist+registered, distinct unless fixed, for every scheduling sequence) + observation of real scattered runs"
     level_text = "grade B, partial: bookkeeping proved (dirs exist and are registered right after scheduling; generated directories never collide); real file system and registry observed"
@@ -99,7 +149,29 @@ class C15(Property):
                 reqs.append(f"{k}:1:-:-:{fx if fx is not None else '-'}")
             lines.append("dirs " + " ".join(reqs))
             meta.append((case, r))
+        # ---- several locations per job, each with its own file system ------------------------------------------------
+        mmeta = []
+        for case, status, r in pmap(multifs.run_case, multifs_cases(ctx.rng, quick), timeout=180, workers=4):
+            replay = {"multifs": case}
+            if status != "ok":
+                ctx.fail("schedule:" + status, f"{case['name']}: {str(r)[:300]}", replay)
+                continue
+            ctx.case({"case": case["name"], "outcome": r["outcome"], "jobs": len(r.get("jobs", []))}, ("m", case["name"]), "multifs")
+            for key, detail in judge_multifs(case, r):
+                ctx.fail(key, detail, replay)
+            if r["outcome"] != "ok":
+                continue
+            for e in r["jobs"]:
+                deps = sorted({l["deployment"] for l in e["locations"]})
+                locs = ",".join(f"{deps.index(l['deployment'])}.{int(l['name'][3:])}" for l in e["locations"])
+                lines.append(f"reg {locs} 3")
+                mmeta.append((case, e))
         got = ctx.lean("Drivers/C15.lean", lines)
+        for g, (case, e) in zip(got[len(meta):], mmeta):
+            real = [sum(1 for reg, _ in l["cells"].values() if reg) for l in e["locations"]]
+            exp = f"ok registered={sum(real)} per-location={','.join(map(str, real))}"
+            if g.strip() != exp:
+                ctx.disagree("registration loop vs model", f"{case['name']}: {e['job']}: real `{exp}`, model `{g.strip()}`", {"multifs": case})
         for g, (case, r) in zip(got, meta):
             g = g.strip()
             real_distinct = len({d for _, dirs in r["dirs"] for d in dirs})
@@ -109,6 +181,12 @@ class C15(Property):
 
     def replay(self, ctx: Ctx, data) -> None:
         rr = data.get("replay") or (data.get("no_longer_checks") or [{}])[0].get("case") or {}
+        if "multifs" in rr:
+            r = multifs.run_case(rr["multifs"])
+            print(json.dumps(r, indent=1)[:6000])
+            for key, detail in judge_multifs(rr["multifs"], r):
+                ctx.fail(key, detail, rr)
+            return
         if "recovery" not in rr:
             return super().replay(ctx, data)
         r = recov.run_case(rr["recovery"])
